@@ -342,9 +342,33 @@ pub fn check_case(c: &Case, _env: &Env) -> CheckResult {
                 Ok(x) => x,
                 Err(p) => fail!(if p.contains("budget") { "implied/nontermination" } else { "implied/panic" }, "get_implied_distribution({:?}): {}", code, p),
             };
-            let truth = own_change_points(&f, 1 << 63, 100_000);
+            // brute force: walk the change points by bisection while the length stays within the 128 bits that
+            // the implied distribution keeps (so that codes with linearly growing lengths are enumerable too)
             let mut exp: Vec<(u64, usize)> = vec![(0, f(0))];
-            exp.extend(truth.iter().map(|&x| (x, f(x))));
+            loop {
+                let (x0, l0) = *exp.last().unwrap();
+                if l0 > 128 {
+                    break;
+                }
+                // smallest x > x0 with f(x) != l0, searched up to 2^63
+                let top = 1u64 << 63;
+                if x0 >= top || f(top) == l0 {
+                    break;
+                }
+                let (mut lo, mut hi) = (x0, top); // f(lo) == l0, f(hi) != l0
+                while hi - lo > 1 {
+                    let mid = lo + (hi - lo) / 2;
+                    if f(mid) == l0 {
+                        lo = mid;
+                    } else {
+                        hi = mid;
+                    }
+                }
+                exp.push((hi, f(hi)));
+                if exp.len() > 100_000 {
+                    break;
+                }
+            }
             let exp: Vec<(u64, usize)> = exp.into_iter().take_while(|x| x.1 <= 128).collect();
             let got: Vec<(u64, usize)> = cps.iter().copied().filter(|x| x.0 <= 1 << 63).collect();
             if got != exp {
@@ -365,7 +389,7 @@ pub fn check_case(c: &Case, _env: &Env) -> CheckResult {
                 use rand::SeedableRng;
                 EVALS.with(|e| e.set(0));
                 let res = guarded(|| {
-                    let mut rng = rand::rngs::SmallRng::seed_from_u64(code.param() + 20);
+                    let mut rng = rand::rngs::SmallRng::seed_from_u64(code.param().wrapping_add(20));
                     let g = move |x: u64| {
                         EVALS.with(|e| {
                             e.set(e.get() + 1);
@@ -472,7 +496,9 @@ fn run(ctx: &Ctx, env: &Env) -> Stats {
                 continue; // defined only below the bound: not a function on the whole domain
             }
             if matches!(code, Code::Unary | Code::Rice(_) | Code::Golomb(_)) {
-                // linearly growing lengths have up to 2^63 change points: not enumerable
+                // linearly growing lengths have up to 2^63 change points: the iterator is not enumerable, but the
+                // implied distribution stops at 128 bits
+                part.check(&Case::Implied { code }, &f);
                 continue;
             }
             part.check(&Case::IterLib { code }, &f);
